@@ -49,7 +49,7 @@ INTEGRATOR_PARAMS = {"initial_time": "T", "initial_state": "Y", "timestep": "D",
 INTEGRATOR_CALLS = {
     "self.step": STEP_RESULT, "self.update_timestep": ("D", "B"), "self.subdiv_step": STEP_RESULT,
     "self.adaptive_richardson": ("D", ("D", "dY"), "dY"), "self": STEP_RESULT,
-    "integrator.update_timestep": ("D", "B"),
+    "integrator.update_timestep": ("D", "B"), "self.basis_integrators[]": STEP_RESULT,
     "D.epsilon": "M", "D.tol_epsilon": "M",
 }
 
